@@ -230,35 +230,65 @@ type takenClaim struct {
 	aHolds string
 }
 
-// takenWhere lists the places, reached through dictionary keys only, at which
-// b holds an explicit empty list while the target a (the accumulated operands,
-// nil = nothing there) holds nothing or a primitive.
-func takenWhere(a, b *model.Node, pol model.Policy, path []pseg, out *[]takenClaim) {
+// takenWhere lists the places at which b holds an explicit empty list while
+// the target a (the accumulated operands, nil = nothing there) holds nothing,
+// a primitive or nil: none of these is a container, so B's value - the empty
+// list - is the result. Lists are followed by the rule of the policy: the
+// element i of b meets the element i of a (default), lands behind a's
+// elements (append) or at i (prepend, replace).
+func takenWhere(a, b *model.Node, pol model.Policy, path []pseg, top bool, out *[]takenClaim) {
+	visit := func(old, v *model.Node, p []pseg) {
+		if !v.IsSub() {
+			return
+		}
+		if len(v.D) == 0 && len(v.A) == 0 {
+			if v.HasA {
+				switch {
+				case old == nil:
+					*out = append(*out, takenClaim{p, "nothing"})
+				case old.IsPrim():
+					*out = append(*out, takenClaim{p, "primitive"})
+				case old.Kind == model.KNil:
+					*out = append(*out, takenClaim{p, "nil"})
+				}
+			}
+			return
+		}
+		if old.IsSub() {
+			takenWhere(old, v, pol, p, false, out)
+		} else {
+			takenWhere(nil, v, pol, p, false, out)
+		}
+	}
 	for _, k := range b.SortedKeys() {
-		v := b.D[k]
-		if !v.IsSub() || isNumeric(k) {
+		if isNumeric(k) {
 			continue
 		}
 		var old *model.Node
 		if a.IsSub() && pol != model.PReplace {
 			old = a.D[k]
 		}
-		p := extend(path, pseg{key: k})
-		if len(v.D) == 0 && len(v.A) == 0 {
-			if v.HasA {
-				if old == nil {
-					*out = append(*out, takenClaim{p, "nothing"})
-				} else if old.IsPrim() {
-					*out = append(*out, takenClaim{p, "primitive"})
-				}
+		visit(old, b.D[k], extend(path, pseg{key: k}))
+	}
+	la := 0
+	if a.IsSub() {
+		if !top && len(a.D) > 0 && len(a.A) > 0 {
+			return // the length of the list part of such a node is not observable (decimal keys, nil entries dropped)
+		}
+		la = len(a.A)
+	}
+	for i, v := range b.A {
+		var old *model.Node
+		at := i
+		switch pol {
+		case model.PDefault:
+			if i < la {
+				old = a.A[i]
 			}
-			continue
+		case model.PAppend:
+			at = la + i
 		}
-		if old.IsSub() {
-			takenWhere(old, v, pol, p, out)
-		} else {
-			takenWhere(nil, v, pol, p, out)
-		}
+		visit(old, v, extend(path, pseg{idx: at, isIdx: true}))
 	}
 }
 
@@ -288,7 +318,7 @@ func emptinessLaws(res *harness.R, before, after obsv, aBefore, b *model.Node, p
 		}
 	}
 	var claims []takenClaim
-	takenWhere(aBefore, b, pol, nil, &claims)
+	takenWhere(aBefore, b, pol, nil, true, &claims)
 	for _, cl := range claims {
 		res.Ev("empty_list_of_source_over_"+cl.aHolds+"_in_target", 1)
 		res.SetAdd("empty_list_taken_class", pol.String()+":"+cl.aHolds)
